@@ -409,3 +409,37 @@ Proof.
   split; [intros [|]; eexists; vm_compute; reflexivity|].
   repeat split; intros [|]; vm_compute; reflexivity.
 Qed.
+
+(** ------------------------------------------------------------------ sensitivity: seeded change C08_A *)
+(** [print] with the final shrink as seeded change C08_A writes it: buffer->buffer is cleared right after
+    the reallocate call and BEFORE its result is checked, so the fail path finds nothing to release.  The
+    ledger statement [print_ledger_inv] is false of this variant: the run of [nvf_tree] with the third
+    request (the shrink) refused returns NULL with the print buffer still allocated. *)
+Definition print_C08_A fmt_d fmt_g15 fmt_g17 sscanf_lg (oracle : nat -> bool) (junk : nat -> Z)
+           (item : node) (format : bool) : res print_result :=
+  let p0 := mkpb None 0 0 0 false format true 0 0 in
+  let '(b, p1) := allocate oracle junk p0 c_DEFAULT_BUFFER_SIZE in
+  let p2 := set_length (set_buf p1 b) c_DEFAULT_BUFFER_SIZE in
+  match b with
+  | None => Ok (result_of None p2)
+  | Some _ =>
+      '(ok, p3) <- print_value fmt_d fmt_g15 fmt_g17 sscanf_lg oracle junk item p2 ;;
+      if negb ok then Ok (result_of None (deallocate p3 (pb_buf p3)))
+      else
+        p4 <- update_offset p3 ;;
+        match pb_buf p4 with
+        | None => OOB
+        | Some buf =>
+            let '(printed, p5) := reallocate oracle junk p4 buf (pb_offset p4 + 1) in
+            let p6 := set_buf p5 None in                                   (* buffer->buffer = NULL; *)
+            match printed with
+            | None => Ok (result_of None (deallocate p6 (pb_buf p6)))      (* goto fail: buffer->buffer is NULL *)
+            | Some pr => Ok (result_of (Some pr) p6)
+            end
+        end
+  end.
+
+Lemma C08_A_violates_ledger_proof :
+  print_C08_A guarded_fmt_d guarded_fmt_g15 guarded_fmt_g17 sscanf_lg (fail_kth 3) (fun _ => 165) nvf_tree false
+  = Ok (mkprr None 1 3).
+Proof. vm_compute. reflexivity. Qed.
